@@ -262,7 +262,7 @@ BASE_RESOURCES = [NAMESPACES, EVENTS, CRDS]
 class Request:
     __slots__ = ('idx', 'client', 'n', 't', 'method', 'path', 'query', 'payload', 'ctype', 'kind',
                  'plural', 'ns', 'name', 'sub', 'status', 'result_rv', 'landed_uid', 'fault', 't_done', 'watch',
-                 'g', 'g_done', 'prev_rv', 'lost')
+                 'g', 'g_done', 'prev_rv', 'lost', 't_end')
 
     def __init__(self, **kw: Any) -> None:
         for k in self.__slots__:
@@ -683,15 +683,19 @@ class FakeKube:
                 lost = True
             elif f.kind == 'conn':
                 req.status = -1
+                req.t_end = self.now()
                 raise aiohttp.ClientConnectionError("injected connection error")
             elif f.kind == 'timeout':
                 req.status = -2
+                req.t_end = self.now()
                 raise asyncio.TimeoutError()
             elif f.kind == 'status':
                 req.status = f.status
+                req.t_end = self.now()
                 return Response(f.status, status_payload(f.status, f'injected {f.status}', details=f.details), headers=f.headers)
             elif f.kind == 'text':
                 req.status = f.status
+                req.t_end = self.now()
                 return Response(f.status, None, headers=f.headers, text=f.text)
         if client.dead:
             req.fault = (req.fault or '') + '|dead'
@@ -703,6 +707,7 @@ class FakeKube:
             self.writer = prev
         req.status = resp.status
         req.t_done = self.now()
+        req.t_end = req.t_done
         req.g_done = next(GSEQ)
         req.lost = bool(lost or post_kill)
         if post_kill:
